@@ -177,6 +177,22 @@ struct Session {
       if (kind == "counted") return new clf::Counted(def, static_cast<size_t>(limit), static_cast<int>(G));
       return new clf::MaxSize(def, static_cast<size_t>(limit), static_cast<int>(G));
    }
+   // generation number in logFileName() (the file the policy says it is writing to)
+   long curGen() const { return pol ? genOfPath(pol->logFileName()) : -1; }
+   // constructor contract: a definition without generation number is refused by Counted/MaxSize, an empty one by all
+   void badDef(const char* what) {
+      clfn::Definition def;
+      clfn::Creator c(def);
+      if (strcmp(what, "nogen") == 0) c << (gDir + "/nogen.txt");
+      const char* res = "ok";
+      try {
+         std::unique_ptr<clf::PolicyBase> p;
+         if (kind == "simple") p.reset(new clf::Simple(def));
+         else if (kind == "counted") p.reset(new clf::Counted(def, static_cast<size_t>(limit), static_cast<int>(G)));
+         else p.reset(new clf::MaxSize(def, static_cast<size_t>(limit), static_cast<int>(G)));
+      } catch (const std::exception&) { res = "exception"; }
+      vj::Line().str("e", "BadDef").str("def", what).str("res", res).emit();
+   }
    // returns false when the injected crash happened
    bool open(long crashAfter) {
       if (pol) return true;
@@ -192,7 +208,7 @@ struct Session {
          return false;
       } catch (const std::exception&) { res = "exception"; }
       gSeam->crashAfter = 0;
-      vj::Line().str("e", "OpenEnd").str("res", res).raw("log", projection()).emit();
+      vj::Line().str("e", "OpenEnd").str("res", res).num("cur", curGen()).raw("log", projection()).emit();
       return true;
    }
    bool write(long len, long crashAfter) {
@@ -212,7 +228,7 @@ struct Session {
          return false;
       } catch (const std::exception&) { res = "exception"; }
       gSeam->crashAfter = 0;
-      vj::Line().str("e", "WriteEnd").str("res", res).raw("log", projection()).emit();
+      vj::Line().str("e", "WriteEnd").str("res", res).num("cur", curGen()).raw("log", projection()).emit();
       return true;
    }
    void crashed() {
@@ -279,6 +295,8 @@ int main(int argc, char** argv) {
          if (kind == "counted") { limit = rng.chance(1, 2) ? rng.range(1, 6) : rng.range(7, 50); G = rng.range(1, 5); }
          else if (kind == "maxsize") { limit = rng.chance(1, 2) ? rng.range(4, 64) : rng.range(65, 2048); G = rng.range(1, 5); }
          s.reset(kind, limit, G);
+         s.badDef("nogen");
+         s.badDef("empty");
          s.open(0);
          // typical message length: a fraction of the byte limit, so that generations hold 1..many messages
          const long typical = kind == "maxsize" ? std::max<long>(1, limit / rng.range(2, 12)) : rng.range(1, 40);
